@@ -540,6 +540,34 @@ def run(F, chk):
                               "exception leaves Load" % (g["name"], show(n["args"][0])[:50], n["short"]))
     chk.floor(R9, 1)
 
+    # ---------------------------------------------------------------- R16.10
+    R10 = chk.rule("R16.10", "in code reachable from Load / Save / CopyFrom, `front()` / `back()` of a member container is taken only under a "
+                             "test of that container's emptiness or size: a block that a short read left without elements (count 0, "
+                             "presence flag still set) must not have its first element read when the model is saved")
+    import pairing as _pairing10
+    n10 = 0
+    for fid in sorted(lscope):
+        fn = F.fns.get(fid)
+        if not fn or not fn.get("body") or fn.get("tmpl") == "pattern" or not (fn.get("file") or "").startswith(("src/", "include/")):
+            continue
+        calls = [n for n in walk(fn["body"]) if n["k"] == "Call" and n.get("ext") and n.get("short") in ("front", "back")
+                 and is_node(n.get("recv")) and not n.get("args") and n["recv"]["k"] == "Member"]
+        if not calls:
+            continue
+        sig = _pairing10.guard_sig(F, fn, calls)
+        for n in calls:
+            c = show(n["recv"])
+            keys = [k for k, p_ in sig.get(id(n), ())]
+            ok = any(c in k and ("empty()" in k or "size()" in k) for k in keys)
+            n10 += 1
+            chk.instance(R10, ok=ok, sample={"fn": fn["name"], "call": show(n)[:60]})
+            if not ok:
+                chk.violation("R16.10", "C16/R16.10:%s:%s" % (fn["name"].split("(")[0], c), where(fn, n),
+                              "%s takes `%s` without a test of `%s.empty()` / its size on the path: for a block loaded from a "
+                              "truncated file (no elements, flags still set) saving what was loaded reads the first element of an "
+                              "empty container" % (fn["name"], show(n)[:50], c))
+    chk.floor(R10, 2)
+
 
 def _pos_guard(st, d):
     """divisor proven >= 1 by a comparison fact like (0 < d) or !(d < 1)"""
